@@ -491,8 +491,8 @@ pub fn exec(s: &mut CrdtSession, toks: &[&str], enc: TextEncoding) -> Vec<String
                     let before = toks[3].starts_with('-');
                     let exp = parse_id(toks[3].trim_start_matches('-')).and_then(|op| expected_cursor(d, &obj, heads.as_deref(), enc, &op, before));
                     let len = match &heads { Some(h) => d.length_at(&obj, h), None => d.length(&obj) };
-                    let _ = len;
-                    let sig = match exp { Some(_) if before => "before-walk-panic", Some((_, false, _)) => "deleted-tail-cursor-panic", _ => "cursor-resolve-panic" };
+                    let tail = parse_id(toks[3].trim_start_matches('-')).and_then(|op| expected_cursor(d, &obj, heads.as_deref(), enc, &op, false)).map(|(w, vis, _)| !vis && w == len).unwrap_or(false);
+                    let sig = if tail { "deleted-tail-cursor-panic" } else if before && exp.is_some() { "before-walk-panic" } else { "cursor-resolve-panic" };
                     res.push(format!("! C26 sig={} get_cursor_position({}) panicked (debug assertion: indexed and walked seek_list_opid differ); expected {:?}", sig, toks[3], exp.map(|x| x.0)));
                     return res;
                 }
